@@ -86,6 +86,12 @@ func main() {
 		writeJSON(*out, RlpMode(*seed, *n, *driver, *keep))
 	case "bancor":
 		writeJSON(*out, BancorMode(*seed, *n, *tier, *driver, *keep))
+	case "events":
+		if *trace != "" {
+			writeJSON(*out, EventsReplay(*trace, *driver, *keep))
+		} else {
+			writeJSON(*out, EventsMode(*seed, *n, *tier, *driver, *keep))
+		}
 	case "campaign":
 		res := Campaign(*profile, *seed, *n, *tier, *driver, *keep, *par)
 		writeJSON(*out, res)
